@@ -45,7 +45,8 @@ fn panic_msg(e: Box<dyn std::any::Any + Send>) -> String {
 
 fn u32_of(v: &J) -> u32 {
     match v.as_i64() {
-        Some(n) if n < 0 => u32::MAX,
+        // "unbounded": a budget no test run can exhaust, but small enough for TLC's 32-bit integers in traces
+        Some(n) if n < 0 => 2_000_000_000,
         Some(n) => n.min(u32::MAX as i64) as u32,
         None => u32::MAX,
     }
@@ -148,7 +149,7 @@ fn push_ret(t: &mut VmGreenThread, ty: &str, v: &J) {
     }
 }
 
-fn diag_json(files: HashMap<PathBuf, String>, main: &str) -> J {
+fn diag_json(files: HashMap<PathBuf, String>, main: &str, keep: bool) -> J {
     // structured diagnostics through the editor API (message, file, byte range)
     let r = catch_unwind(AssertUnwindSafe(|| {
         let res = check_lsp(main, MockFileProvider::new(files));
@@ -162,7 +163,7 @@ fn diag_json(files: HashMap<PathBuf, String>, main: &str) -> J {
             v.push(json!({"msg": e.message, "file": file, "start": e.range.start, "end": e.range.end,
                 "labels": e.secondary_labels.iter().map(|(_, r, m)| json!({"start": r.start, "end": r.end, "msg": m})).collect::<Vec<_>>()}));
         }
-        std::mem::forget(res);
+        if keep { std::mem::forget(res); } else { drop(res); }
         J::Array(v)
     }));
     match r {
@@ -212,7 +213,7 @@ pub fn run_case(case: &J, modules: &HashMap<PathBuf, String>, outdir: &Path) -> 
         }
         if mode == "check" {
             if case.get("diags").and_then(|c| c.as_bool()) == Some(true) {
-                obs.insert("diags".into(), diag_json(files_of(case, modules), &main));
+                obs.insert("diags".into(), diag_json(files_of(case, modules), &main, case.get("forget").and_then(|a| a.as_bool()).unwrap_or(true)));
             }
             return J::Object(obs);
         }
@@ -237,7 +238,7 @@ pub fn run_case(case: &J, modules: &HashMap<PathBuf, String>, outdir: &Path) -> 
             obs.insert("compile".into(), json!("diag"));
             obs.insert("diag_text".into(), json!(e.to_string()));
             if case.get("diags").and_then(|c| c.as_bool()) == Some(true) {
-                obs.insert("diags".into(), diag_json(files_of(case, modules), &main));
+                obs.insert("diags".into(), diag_json(files_of(case, modules), &main, case.get("forget").and_then(|a| a.as_bool()).unwrap_or(true)));
             }
             return J::Object(obs);
         }
@@ -253,8 +254,8 @@ pub fn run_case(case: &J, modules: &HashMap<PathBuf, String>, outdir: &Path) -> 
         .get("budgets")
         .and_then(|b| b.as_array())
         .map(|a| a.iter().map(u32_of).collect())
-        .unwrap_or_else(|| vec![u32::MAX]);
-    let budgets = if budgets.is_empty() { vec![u32::MAX] } else { budgets };
+        .unwrap_or_else(|| vec![2_000_000_000]);
+    let budgets = if budgets.is_empty() { vec![2_000_000_000] } else { budgets };
     let delay = case.get("delay").and_then(|d| d.as_u64()).unwrap_or(0);
     let maxsteps = case.get("maxsteps").and_then(|d| d.as_u64()).unwrap_or(3_000_000);
     let want_calls = case.get("calls").and_then(|c| c.as_bool()).unwrap_or(false);
@@ -505,6 +506,9 @@ pub fn run_case(case: &J, modules: &HashMap<PathBuf, String>, outdir: &Path) -> 
 pub fn lsp_case(case: &J, modules: &HashMap<PathBuf, String>, main: &str, obs: &mut Map<String, J>) {
     let files = files_of(case, modules);
     let src = files.get(Path::new(main)).cloned().unwrap_or_default();
+    // "forget": false drops the analysis result (default: leak it, as before; a long batch of lsp cases
+    // then exhausts the worker's address-space limit)
+    let keep = case.get("forget").and_then(|a| a.as_bool()).unwrap_or(true);
     let r = catch_unwind(AssertUnwindSafe(|| {
         let res = check_lsp(main, MockFileProvider::new(files));
         let fid = res.file_id_for_path(Path::new(main));
@@ -543,7 +547,7 @@ pub fn lsp_case(case: &J, modules: &HashMap<PathBuf, String>, main: &str, obs: &
                         }
                     }
                 }
-                std::mem::forget(res);
+                if keep { std::mem::forget(res); } else { drop(res); }
                 return (diags, answers, nq, qpanics);
             }
             for o in offsets {
@@ -558,7 +562,7 @@ pub fn lsp_case(case: &J, modules: &HashMap<PathBuf, String>, main: &str, obs: &
                 }
             }
         }
-        std::mem::forget(res);
+        if keep { std::mem::forget(res); } else { drop(res); }
         (diags, answers, nq, qpanics)
     }));
     match r {
